@@ -1,6 +1,227 @@
 package rules
 
-import "verif/internal/core"
+import (
+	"encoding/json"
+	"fmt"
+	"os"
+	"os/exec"
+	"path/filepath"
+	"regexp"
+	"sort"
+	"strings"
+	"sync"
 
+	"verif/internal/core"
+)
+
+// Variant is one single-edit variant of /repo used to validate the checker itself.
+type Variant struct {
+	Property string `json:"property"`
+	File     string `json:"file"`
+	Edits    []struct {
+		Old string `json:"old"`
+		New string `json:"new"`
+	} `json:"edits"`
+	Files []struct {
+		File  string `json:"file"`
+		Edits []struct {
+			Old string `json:"old"`
+			New string `json:"new"`
+		} `json:"edits"`
+	} `json:"files"`
+	Expect []struct {
+		Rule string `json:"rule"`
+		Site string `json:"site"`
+	} `json:"expect"`
+	Note string `json:"note"`
+}
+
+var lineRe = regexp.MustCompile(`(?m)^(VIOLATED|UNDECIDED): (\S+?)\.(\S+) site=(.*?) at `)
+
+type subResult struct {
+	name     string
+	findings [][3]string // kind, rule, site
+	out      string
+	err      error
+}
+
+func runSelf(exe string, verifDir string, args ...string) subResult {
+	tmp, err := os.MkdirTemp("", "dsv-")
+	if err != nil {
+		return subResult{err: err}
+	}
+	defer os.RemoveAll(tmp)
+	if b, err := os.ReadFile(filepath.Join(verifDir, "known_findings.txt")); err == nil {
+		os.WriteFile(filepath.Join(tmp, "known_findings.txt"), b, 0o644)
+	}
+	full := append([]string{}, args...)
+	full = append(full, "-verif", tmp, "-tier", "quick")
+	cmd := exec.Command(exe, full...)
+	cmd.Env = append(os.Environ(), "VERIF_TIER=quick")
+	out, _ := cmd.CombinedOutput()
+	res := subResult{out: string(out)}
+	for _, m := range lineRe.FindAllStringSubmatch(string(out), -1) {
+		res.findings = append(res.findings, [3]string{m[1], m[3], m[4]})
+	}
+	if !strings.Contains(string(out), "dscheck property=") {
+		res.err = fmt.Errorf("no result line: %s", tail(string(out), 300))
+	}
+	return res
+}
+
+func tail(s string, n int) string {
+	if len(s) > n {
+		return s[len(s)-n:]
+	}
+	return s
+}
+
+// thorough: (a) the same rules over two more build variants of the tree (GOARCH=386: int is 32 bit and
+// build-constrained files change; -tags verif: proves that no file hidden behind the hook tag adds a
+// writer/caller/unguarded site), each in its own process; (b) self-validation: every stored single-edit
+// variant of this property is analysed through an in-memory overlay and must make its rule report.
 func thorough(prop string, w *core.World, r *core.Report, verifDir string, selfcheck bool) {
+	exe, err := os.Executable()
+	if err != nil {
+		r.Undecided("THOROUGH", "executable", "", err.Error())
+		return
+	}
+	base := map[string]bool{}
+	for _, o := range r.Obs {
+		if o.Status == "violated" || o.Status == "undecided" {
+			base[o.Rule+"|"+o.Site] = true
+		}
+	}
+	type job struct {
+		name string
+		args []string
+		v    *Variant
+	}
+	var jobs []job
+	jobs = append(jobs, job{"build GOARCH=386", []string{"-property", prop, "-goarch", "386"}, nil})
+	jobs = append(jobs, job{"build -tags verif", []string{"-property", prop, "-tags", "verif"}, nil})
+	var skipped []string
+	tmpOverlays, _ := os.MkdirTemp("", "dsv-ov-")
+	defer os.RemoveAll(tmpOverlays)
+	if selfcheck {
+		files, _ := filepath.Glob(filepath.Join(verifDir, "variants", "*.json"))
+		sort.Strings(files)
+		for _, fp := range files {
+			b, err := os.ReadFile(fp)
+			if err != nil {
+				continue
+			}
+			var v Variant
+			if json.Unmarshal(b, &v) != nil || v.Property != prop {
+				continue
+			}
+			name := strings.TrimSuffix(filepath.Base(fp), ".json")
+			if len(v.Files) == 0 {
+				v.Files = append(v.Files, struct {
+					File  string `json:"file"`
+					Edits []struct {
+						Old string `json:"old"`
+						New string `json:"new"`
+					} `json:"edits"`
+				}{File: v.File, Edits: v.Edits})
+			}
+			overlay := map[string]string{}
+			ok := true
+			for _, vf := range v.Files {
+				src, err := os.ReadFile(filepath.Join(core.RepoDir(), vf.File))
+				if err != nil {
+					skipped = append(skipped, name+": "+err.Error())
+					ok = false
+					break
+				}
+				text := string(src)
+				for _, e := range vf.Edits {
+					if !strings.Contains(text, e.Old) {
+						ok = false
+						break
+					}
+					text = strings.Replace(text, e.Old, e.New, 1)
+				}
+				if !ok {
+					skipped = append(skipped, name+": anchor text no longer in "+vf.File+" (the code the variant edits was changed; variant skipped, not failed)")
+					break
+				}
+				overlay[vf.File] = text
+			}
+			if !ok {
+				continue
+			}
+			ov, _ := json.Marshal(overlay)
+			ovPath := filepath.Join(tmpOverlays, name+".json")
+			os.WriteFile(ovPath, ov, 0o644)
+			vv := v
+			jobs = append(jobs, job{"variant " + name, []string{"-property", prop, "-overlay", ovPath}, &vv})
+		}
+	}
+	results := make([]subResult, len(jobs))
+	sem := make(chan struct{}, 5)
+	var wg sync.WaitGroup
+	for i, j := range jobs {
+		wg.Add(1)
+		go func(i int, j job) {
+			defer wg.Done()
+			sem <- struct{}{}
+			defer func() { <-sem }()
+			results[i] = runSelf(exe, verifDir, j.args...)
+			results[i].name = j.name
+		}(i, j)
+	}
+	wg.Wait()
+	r.Rule("BUILD-VARIANTS", 2, "thorough tier: the rules of this property are re-run on the tree loaded with GOARCH=386 and with -tags verif (separate processes); every finding that the default build does not have is reported.")
+	if selfcheck {
+		r.Rule("SELF-VALIDATION", 1, "thorough tier: every stored single-edit variant of /repo for this property (variants/*.json: reverted repairs, flipped guards, dropped calls, independent agents' seeded changes) is analysed through an in-memory overlay and must make the expected rule report; a missed variant marks the checker as broken (exit 2, no VIOLATION line). Variants whose anchor text is gone are skipped and listed.")
+	}
+	var caught, missed []string
+	for i, j := range jobs {
+		res := results[i]
+		if j.v == nil {
+			if res.err != nil {
+				r.Undecided("BUILD-VARIANTS", j.name, "", res.err.Error())
+				continue
+			}
+			extra := 0
+			for _, f := range res.findings {
+				if !base[f[1]+"|"+f[2]] {
+					extra++
+					r.Viol("BUILD-VARIANTS", j.name+": "+f[1]+" "+f[2], "", "reported only in this build variant")
+				}
+			}
+			if extra == 0 {
+				r.OK("BUILD-VARIANTS", j.name, "", fmt.Sprintf("same findings as the default build (%d)", len(res.findings)))
+			}
+			continue
+		}
+		name := strings.TrimPrefix(j.name, "variant ")
+		if res.err != nil || strings.Contains(res.out, ".LOAD site=repository") {
+			skipped = append(skipped, name+": variant does not load/type-check on the current tree (the code around its edit was changed): "+tail(res.out, 200))
+			continue
+		}
+		ok := true
+		for _, e := range j.v.Expect {
+			hit := false
+			for _, f := range res.findings {
+				if f[1] == e.Rule && strings.Contains(f[2], e.Site) {
+					hit = true
+				}
+			}
+			if !hit {
+				ok = false
+			}
+		}
+		if ok {
+			caught = append(caught, name)
+			r.OK("SELF-VALIDATION", "variant "+name, "", "reported as expected: "+j.v.Note)
+		} else {
+			missed = append(missed, name)
+			r.CheckerBroken = append(r.CheckerBroken, fmt.Sprintf("variant %s not reported (expected %v, got %v)", name, j.v.Expect, res.findings))
+		}
+	}
+	r.Extra["selfvalidation_caught"] = caught
+	r.Extra["selfvalidation_missed"] = missed
+	r.Extra["selfvalidation_skipped"] = skipped
 }
